@@ -1,6 +1,7 @@
 package main
 
 import (
+	"sync/atomic"
 	"encoding/hex"
 	"errors"
 	"fmt"
@@ -71,9 +72,24 @@ func safeEvalWithin(budget time.Duration, f func() (system.Collection, error)) (
 	case o = <-done:
 		return o
 	case <-time.After(budget):
+		// The wall-clock guard is not part of any property: on a loaded machine a job can be slow without
+		// hanging.  The first few jobs of a process that run out of time get a second, longer wait on the same
+		// job; only what is still running after that is reported as not returning.  (A code change that makes
+		// evaluation hang is still reported; it costs at most lateGraces long waits per process.)
+		if atomic.AddInt32(&lateGraceUsed, 1) <= lateGraces {
+			select {
+			case o = <-done:
+				return o
+			case <-time.After(3 * budget):
+			}
+		}
 		return Outcome{TimedOut: true}
 	}
 }
+
+const lateGraces = 2
+
+var lateGraceUsed int32
 
 func safeErr(f func() error) (err error, panicked bool, msg string) {
 	defer func() {
